@@ -127,6 +127,10 @@ func getLogoutRequestFromRequest(r *http.Request) (*LogoutRequestForm, error) {
 		Encoding:      r.Form.Get("SAMLEncoding"),
 		RelayState:    r.Form.Get("RelayState"),
 	}
+	// the HTTP-Redirect binding always uses the DEFLATE encoding, the parameter is optional there
+	if _, ok := r.URL.Query()["SAMLRequest"]; ok && request.Encoding == "" {
+		request.Encoding = xml.EncodingDeflate
+	}
 
 	return request, nil
 }
